@@ -493,8 +493,52 @@ func c08Run(r *runCtx, id string, f []string) {
 				bad = append(bad, "equal tuples did not behave as one entry")
 			}
 		}
+		// a tuple that the collector took away (expired, or the oldest over the limit) and that is
+		// looked up again names a datum that is stored: found by the same tuple, enumerated once
+		cls := "tuple-aliasing"
+		if len(bad) == 0 {
+			now := time.Now()
+			for _, byLimit := range []bool{false, true} {
+				m2 := metrics.NewMetric("m2", "p", metrics.Gauge, metrics.Int, keys...)
+				st := metrics.NewStore()
+				_ = st.Add(m2)
+				if byLimit {
+					if equal {
+						continue
+					}
+					m2.Limit = 1
+					if d, err := m2.GetDatum(b...); err == nil {
+						datum.SetInt(d, 1, now)
+					}
+				}
+				d1, err := m2.GetDatum(a...)
+				if err != nil {
+					continue
+				}
+				datum.SetInt(d1, 5, now.Add(-time.Hour))
+				if !byLimit {
+					_ = m2.ExpireDatum(time.Second, a...)
+				}
+				_ = st.Gc()
+				if m2.FindLabelValueOrNil(a) != nil {
+					continue // not collected (C10 says whether it should have been)
+				}
+				d2, _ := m2.GetDatum(a...)
+				lv := m2.FindLabelValueOrNil(a)
+				cnt := 0
+				for _, x := range m2.LabelValues {
+					if eqTuple(x.Labels, a) {
+						cnt++
+					}
+				}
+				if lv == nil || lv.Value != d2 || cnt != 1 {
+					bad = append(bad, fmt.Sprintf("after the collector removed A (by limit: %v), looking A up again gives a datum that is not stored (found=%v, enumerated %d times)", byLimit, lv != nil, cnt))
+					cls = "lookup-after-collection"
+				}
+			}
+		}
 		if len(bad) > 0 {
-			r.fail(id, "tuple-aliasing", "A=%s B=%s: %s", hxs(a), hxs(b), strings.Join(bad, "; "))
+			r.fail(id, cls, "A=%s B=%s: %s", hxs(a), hxs(b), strings.Join(bad, "; "))
 		} else {
 			r.ok(id)
 		}
